@@ -919,6 +919,67 @@ fn run_stream(seed: u64) -> Result<u64, Fail> {
         }
         ops += 2;
     }
+    // ReadStream::eof(): never while the write end exists; once it is gone, exactly when everything has been consumed
+    if r.eof() {
+        return Err(fail(t, "C09", "eof-only-when-the-writer-is-gone-and-nothing-is-readable", format!("eof() with the write end alive ({} of {next} samples consumed)", got), seed));
+    }
+    drop(w);
+    loop {
+        let (rb, _tags) = r.read_buf().unwrap();
+        let left = rb.len();
+        drop(rb);
+        let e = r.eof();
+        if e != (left == 0) {
+            return Err(fail(t, "C09", "eof-only-when-the-writer-is-gone-and-nothing-is-readable", format!("writer gone, {left} samples readable, eof() says {e}"), seed));
+        }
+        if left == 0 { break; }
+        let (rb, _tags) = r.read_buf().unwrap();
+        let m = rng.pick(&[1, 2, 1000, usize::MAX]).min(left);
+        rb.consume(m);
+        ops += 1;
+    }
+    // packet ("non-copy") streams against a reference queue: pop returns the oldest packet exactly once, push appends,
+    // peek_size is the oldest packet's length, eof only when empty and the writer is gone
+    {
+        let (tx, rx) = rustradio::stream::new_nocopy_stream::<Vec<u8>>();
+        let mut reference: std::collections::VecDeque<Vec<u8>> = Default::default();
+        let mut ctr = 0u32;
+        let mut tx = Some(tx);
+        for step in 0..400 {
+            if step == 300 { tx = None; }
+            let c = rng.below(5);
+            if c < 2 {
+                if let Some(tx) = &tx {
+                    ctr += 1;
+                    let pkt: Vec<u8> = (0..(ctr % 7) as usize).map(|i| (ctr as usize * 31 + i) as u8).chain(ctr.to_le_bytes()).collect();
+                    reference.push_back(pkt.clone());
+                    tx.push(pkt, &[]);
+                }
+            } else if c < 4 {
+                let want_len = reference.front().map(|p| p.len());
+                let pk = rx.peek_size();
+                if pk != want_len {
+                    return Err(fail(t, "C01", "peek_size-is-the-length-of-the-oldest-packet", format!("step {step}: peek_size {pk:?}, oldest queued packet has {want_len:?}"), seed));
+                }
+                let got = rx.pop();
+                let want = reference.pop_front();
+                match (&got, &want) {
+                    (None, None) => {}
+                    (Some((g, tags)), Some(wv)) if g == wv => {
+                        if !tags.is_empty() { return Err(fail(t, "C02", "pop-reports-no-tags", format!("step {step}: {} tags on a packet", tags.len()), seed)); }
+                    }
+                    _ => return Err(fail(t, "C01", "pop-returns-the-oldest-packet-and-removes-exactly-it", format!("step {step}: popped {:?}, oldest queued packet was {:?}", got.as_ref().map(|g| &g.0), want), seed)),
+                }
+            } else {
+                let e = rx.eof();
+                let want = tx.is_none() && reference.is_empty();
+                if e != want {
+                    return Err(fail(t, "C09", "eof-only-when-empty-and-the-writer-is-gone", format!("step {step}: eof() says {e}; writer {} , {} packets queued", if tx.is_some() { "alive" } else { "gone" }, reference.len()), seed));
+                }
+            }
+            ops += 1;
+        }
+    }
     let upto = got;
     let want: Vec<_> = want_tags.into_iter().filter(|t| t.0 < upto).collect();
     if got_tags != want {
